@@ -101,6 +101,7 @@ impl Prop for C06 {
     }
     fn strategy(tier: Tier) -> BoxedStrategy<Building> {
         let mut p = params(tier);
+        p.aux_non_epb = false;
         p.regime_pct = 25;
         let mut scarce = p.clone();
         scarce.regime_pct = 0;
